@@ -153,6 +153,16 @@ def rule_mapping(ctx: Ctx, rule: str = "C10.access"):
         break
     if not seen:
         rep.violation(rule, fn.loc(), "add_state does not fill states_map", fn.key, "no states_map[...] store")
+    # the map is keyed by value: a second state under a value already taken would replace the first (a transition into the
+    # first would land in the second; a stored value would resume the wrong one), so it is refused at class definition
+    refused = False
+    for p in ctx.paths(fn, inline=None, exc_edges="none", unroll=1):
+        if p.kind == "raise" and "InvalidDefinition" in xshow(p.value, p.events) and \
+                any("states_map" in xshow(b.term, p.events) for b in p.of("branch") if b.term is not None) and \
+                not any(e.kind == "store" and e.x.get("subscript") and xshow(e.term.value, p.events).endswith(".states_map") for e in p.events):
+            refused = True
+    rep.check(refused, rule, fn.loc(), "a state whose value is already mapped to another state is refused with InvalidDefinition (two states "
+              "under one value: the later one would shadow the earlier in every lookup by value)", fn.key, "no collision test on states_map before the store")
     # states_map is the set of valid model contents: every key put into it, anywhere, is the `value` of the state it maps to
     n_w = 0
     for f in ctx.p.all_functions():
